@@ -405,3 +405,34 @@ where
     let one = circuit.define_const(SC::Challenge::ONE);
     circuit.sub(exp, one)
 }
+
+/// Verification-only re-export of the private in-circuit vanishing polynomial
+/// (thin forwarding wrapper; compiled only with `--cfg p3r_verif`).
+#[cfg(p3r_verif)]
+pub mod verif_exports {
+    use p3_circuit::CircuitBuilder;
+    use p3_uni_stark::StarkGenericConfig;
+
+    use crate::Target;
+    use crate::traits::{Recursive, RecursivePcs};
+
+    pub fn vanishing_poly_at_point_circuit<
+        SC: StarkGenericConfig,
+        InputProof: Recursive<SC::Challenge>,
+        OpeningProof: Recursive<SC::Challenge>,
+        Comm: Recursive<SC::Challenge>,
+        Domain,
+    >(
+        pcs: &SC::Pcs,
+        domain: &Domain,
+        point: Target,
+        circuit: &mut CircuitBuilder<SC::Challenge>,
+    ) -> Target
+    where
+        SC::Pcs: RecursivePcs<SC, InputProof, OpeningProof, Comm, Domain>,
+    {
+        super::vanishing_poly_at_point_circuit::<SC, InputProof, OpeningProof, Comm, Domain>(
+            pcs, domain, point, circuit,
+        )
+    }
+}
